@@ -75,6 +75,12 @@ func isoPrograms(bin bool) [][]wire.Op {
 			{Kind: "append", Key: m, Val: "zz"}, // miss
 			{Kind: "mget", Keys: []string{m, k}, Quiet: []bool{bin, false}},
 		}
+		if bin {
+			// a quiet batch closed by a no-op: the terminator is a frame of its own
+			ops = append(ops, wire.Op{Kind: "mget", Keys: []string{k, m, k}, Quiet: []bool{true, true, true}, NoopEnd: true})
+		} else {
+			ops = append(ops, wire.Op{Kind: "mget", Keys: []string{k, m, k}})
+		}
 		return ops
 	}
 	progs := [][]wire.Op{prog(0), prog(1), prog(2)}
@@ -90,6 +96,7 @@ func isoPrograms(bin bool) [][]wire.Op {
 func runIso(sc IsoScenario, prefix []int, only int) *isoResult {
 	res := &isoResult{}
 	w := NewWorld(sc.Cfg)
+	defer w.Release()
 	s := sched.New(prefix)
 	res.S = s
 	var hk *ShimHooks
@@ -104,7 +111,7 @@ func runIso(sc IsoScenario, prefix []int, only int) *isoResult {
 	}
 	if sc.Cfg.Lock != "none" {
 		// real mutexes must never block under the cooperative scheduler: instrumented lockers
-		mon := InstallLockMonitor(s, lockedSlot(sc.Cfg))
+		mon := InstallLockMonitor(s, w.LockSlot())
 		defer mon.Uninstall()
 	}
 	sessions := make([]*Session, len(sc.Threads))
@@ -210,7 +217,12 @@ func runC14(c *rt.Ctx) {
 	cfgs = append(cfgs, Cfg{Orca: "l1l2", Lock: "none", Proto: "text", L1H: "std"}, Cfg{Orca: "l1l2b", Lock: "multi", Proto: "binary", L1H: "std"},
 		// what memproxy --chunked --locked deploys, with a one-stripe lock table: private keys of
 		// different connections share the stripe
-		Cfg{Orca: "l1only", Lock: "single", Proto: "binary", L1H: "chunked", Conc: 0})
+		Cfg{Orca: "l1only", Lock: "single", Proto: "binary", L1H: "chunked", Conc: 0},
+		// the text protocol under the locking wrapper (every get reply ends in a terminator line), and
+		// the deployment as the real main program builds it
+		Cfg{Orca: "l1l2b", Lock: "multi", Proto: "text", L1H: "std", Conc: 4},
+		Cfg{Orca: "l1only", Lock: "single", Proto: "text", L1H: "std", Conc: 2, App: true},
+		Cfg{Orca: "l1l2b", Lock: "multi", Proto: "binary", L1H: "std", Conc: 2, App: true})
 	bound := 1
 	maxExecs := 4000
 	if c.Thorough() {
